@@ -18,7 +18,13 @@ static void one(const char *s, int len, const char *grp) {           /* len byte
   if (locid() != 1) setlocale(LC_ALL, "C.utf8");          /* every parse starts from the non-C locale, all categories */
   /* every other parse runs with a per-thread locale installed by the caller (uselocale): it must still be installed afterwards */
   static locale_t mine; static unsigned tick; int use = (tick++ & 1); if (use) { if (!mine) mine = newlocale(LC_ALL_MASK, "C.utf8", (locale_t)0); if (mine) uselocale(mine); else use = 0; }
+  /* one parse in five starts from a MIXED process locale (LC_NUMERIC "C" inside C.utf8, or LC_CTYPE C.utf8 inside "C"): every category must be as it was */
+  static unsigned mtick; int mixed = (mtick++ % 5 == 4) ? 1 + (int)((mtick / 5) & 1) : 0;
+  if (mixed == 1) { setlocale(LC_ALL, "C.utf8"); setlocale(LC_NUMERIC, "C"); } else if (mixed == 2) { setlocale(LC_ALL, "C"); setlocale(LC_CTYPE, "C.utf8"); }
+  char all0[512]; snprintf(all0, sizeof all0, "%s", setlocale(LC_ALL, NULL));
   int l0 = locid(); xrl_error *e = NULL; struct compoundData *c = CompoundParser(buf, &e); int l1 = locid();
+  if (strcmp(all0, setlocale(LC_ALL, NULL))) l1 = 5;       /* some category differs from what it was */
+  if (mixed) setlocale(LC_ALL, "C.utf8");
   if (use) { if (uselocale((locale_t)0) != mine) l1 = 4; uselocale(LC_GLOBAL_LOCALE); }
   if (in_group && !group_first) fputc(',', OUT);
   group_first = 0;
